@@ -93,9 +93,13 @@ def id_plumbing(ctx, rule):
             n += 1
             ex, ps = run_fn(fn, F, BaseModel())
             rp = ret_paths(ps)
-            rets = [re.sub(r"[&*]", "", S.fstr(p.end[1])) for p in rp]
+            # (`usize::try_from(self.0)` + `unreachable!()` on Err instead of `self.0 as usize`: an integer conversion that succeeds
+            # yields the same number; the failing arm is a panic site of the inventory, not a second result)
+            rets = [re.sub(r"\((?:[\w<>]+::)*try_from\(([^()]*)\) as Ok\)\.0", r"\1", re.sub(r"[&*]", "", S.fstr(p.end[1]))) for p in rp]
             wrx = re.compile(want_ret.replace("\\1", re.escape(m.group(1))))
-            ok = len(ps) == 1 and len(rp) == 1 and wrx.match(rets[0]) is not None
+            others = [p for p in ps if p not in rp]
+            conv_fail = all(p.end and p.end[0] == "diverge" and any(re.search(r"try_from\(", S.fstr(c)) for c, o in p.conds) for p in others)
+            ok = len(rp) == 1 and conv_fail and wrx.match(rets[0]) is not None
             ws = [re.sub(r"[&*]", "", S.fstr(e[4])) for p in ps for e in p.events if e[0] == "write" and e[2][0] != "local"]
             if want_write is None:
                 ok = ok and not ws
